@@ -628,7 +628,11 @@ def execute_contract(sc):
         if len(I2) == 0:
             return finish(sc, V, stats, runs, 0.0, h, 0)
         if cl == 'missing':
-            o = run_job(sc, I2, y2, w2, Y0, 2)
+            extra_kw = None
+            if len(n) >= 3 and gen(sc['dseed'] + 11).random() < 0.5:
+                extra_kw = {'r': sc['r'] + 1}            # "rejected unless explicitly allowed" holds for the rank-adaptive mode as well
+                w2 = None
+            o = run_job(sc, I2, y2, w2, Y0, 2, extra=extra_kw)
             runs += 1
             if isinstance(o.exc, ValueError):
                 P('missing_slice_rejected')
